@@ -61,6 +61,8 @@ class Registry:
         self.record_methods = {}  # (record name, method) -> hook(ex, recv, args, kwargs): functional model of an immutable class (assumed)
         self.obj_method_hooks = {}  # method name -> hook(ex, recv, args, kwargs) for opaque objects (assumed behaviour with ghost effects)
         self.opaque_classes = {}  # class name -> module: classes whose __init__ only stores its parameters (checked per run)
+        self.obj_uf_methods = {}  # method name on opaque objects -> uninterpreted function giving its result (for native replay)
+        self.class_state = {}   # (class name, attribute) -> ghost name: mutable class-level state (e.g. a global counter)
 
     # --- declaration helpers
     def contract(self, fid, **kw):
